@@ -122,8 +122,11 @@ def main(tier):
             exited_own = {e["t"] for e in evs if e["e"] == "Exit"}
             leaked = [t_ for t_ in a.get("live_tasks", []) if t_ not in killed and t_ not in exited_own]
             only_new = bool(leaked) and bool(spawned_before) and set(leaked) == {spawned_before[-1]}
+            # ... and the scheduler had not done anything visible (no line printed, no read of the SIGCHLD pipe, no waitpid)
+            # since that spawn: the signal arrived inside the spawn-and-register sequence, wherever its byte-codes live
+            before_any_act = only_new and a.get("acts", 1) == 0
             rep.violation({"clause": bad[0], "file": a["file"], "func": a["func"], "in_del": bool(a.get("in_del")),
-                           "unbound_local": unbound, "only_unregistered_leaked": only_new},
+                           "unbound_local": unbound, "only_unregistered_leaked": only_new, "before_next_scheduler_action": before_any_act},
                           scns[i], "abort at %s:%s (%s)%s with %d live task process(es): %s; exit=%s %s" % (
                               a["file"], a["line"], a["func"], " inside a finalizer" if a.get("in_del") else "", live, bad,
                               results[i]["status"], (exc or stderr[-160:]).replace("\n", " | ")),
